@@ -194,6 +194,11 @@ fn name_set_program(ns: &NameSet, rng: &mut Rng) -> (String, Vec<String>) {
     main.push_str(&format!("    let ((nla, nlb), nr) = idg((({a} {{ v: 1 }}, {b} {{ v: 2 }}), {c} {{ v: 3 }}));\n    let (ml, (mra, mrb)) = idg(({a} {{ v: 4 }}, ({b} {{ v: 5 }}, {c} {{ v: 6 }})));\n"));
     line(&mut main, &mut exp, "nla.v * 100 + nlb.v * 10 + nr.v".into(), 123);
     line(&mut main, &mut exp, "ml.v * 100 + mra.v * 10 + mrb.v".into(), 456);
+    // tuples whose component types differ only in an array length or in the container kind
+    main.push_str("    let (la2, lb2) = idg(([1, 2], 7));\n    let (la3, lb3) = idg(([1, 2, 3], 8));\n    let lv: Vec[int32] = vec_push(vec_new(), 5);\n    let (lav, lbv) = idg((lv, 9));\n    let (ln2, lm2) = idg((([1, 2], true), 1));\n    let (ln3, lm3) = idg((([1, 2, 3], true), 2));\n");
+    line(&mut main, &mut exp, "array_get(la2, 1) * 1000 + array_get(la3, 2) * 100 + vec_get(lav, 0) * 10 + lb2 + lb3 + lbv".into(), 2 * 1000 + 3 * 100 + 5 * 10 + 7 + 8 + 9);
+    main.push_str("    let (ln2a, ln2b) = ln2;\n    let (ln3a, ln3b) = ln3;\n");
+    line(&mut main, &mut exp, "array_get(ln2a, 0) + array_get(ln3a, 2) + lm2 + lm3".into(), 1 + 3 + 1 + 2);
     // containers, generic struct, dyn, function types
     for (j, tn) in t.iter().enumerate() {
         let base = (j as i64 + 1) * 3;
@@ -252,8 +257,11 @@ fn mechanism_of(name: &str, user_names: &[String]) -> &'static str {
         "case-folded-component"
     } else if name.contains("TFunc") {
         "function-type-component"
-    } else {
+    } else if user_names.iter().any(|u| u.contains('_') && name.contains(u.as_str())) {
         "underscore-joined-components"
+    } else {
+        // no user name with an underscore is involved: two structurally different types / entities share a name
+        "different-entities-share-a-name"
     }
 }
 
